@@ -6,6 +6,6 @@ func init() {
 	plans["C22"] = Plan{Pkg: pkg("C22"), Steps: []Step{
 		// one case = one script server + one opcua.Client.Connect (RSA handshake with
 		// the fixture keys): 20-80 ms each
-		{Run: "TestSessionSignature", Quick: 2000, Thorough: 40000, QShards: 8, TShards: 16, QTimeout: 8 * time.Minute},
+		{Run: "TestSessionSignature", Quick: 2000, Thorough: 24000, QShards: 8, TShards: 16, QTimeout: 8 * time.Minute},
 	}}
 }
